@@ -10,7 +10,7 @@ import (
 
 func init() {
 	register("C18", propMeta{
-		Explanation: "E-GUARD + E-PROV + E-OWN + E-LOCK. O-1 sanitiser shape: clientAddr returns a non-empty address only through param != \"\", net.ParseIP(param) != nil and !ip.IsUnspecified() on that parsed IP; the value is (&net.TCPAddr{IP: ip, Port: 1}).String() of the parsed IP; every other return is the empty ClientMapAddr. O-2 flow: ServeHTTP sanitises the client_ip query value of this request and passes exactly that to turbotunnelMode, which stores it under this carrier's ClientID by the only Set call; acceptStreams fetches the address once, before the stream loop, with the session's RemoteAddr().(ClientID), and every accepted connection carries that value, which RemoteAddr() returns; on the proxy side the client_ip value is the String() of the address computed by remoteIPFromSDP, which returns only addresses that pass isRemoteAddress. O-3 bounded ring: entries is allocated once with the capacity and never appended or re-sliced; oldest advances only as (oldest + 1) % len(entries); inserting current[k] = oldest is preceded on every path by the delete of the stale owner of that slot; len(entries) == 0 returns before indexing; every access to the ring is under its mutex, Get's read of the entry included. Each clause is necessary: e.g. reading entries[i] after releasing the lock returns another session's address. Added after the second seeding round: O-2 every path from the successful ClientID read to the packet loops passes clientIDAddrMap.Set (each carrier records its address, not only the first), and the relay URL that client_ip is written into is parsed by this invocation of datachannelHandler; O-3 Set takes a new slot on every call with a non-empty ring. Added after the third seeding round: ServeHTTP and its helpers store nothing in the handler object, which all requests of a listener share. Added after the fourth seeding round: SnowflakeClientConn.RemoteAddr returns nothing but the stored address (no fallback to the wrapped stream's address, which is the ClientID).",
+		Explanation: "E-GUARD + E-PROV + E-OWN + E-LOCK. O-1 sanitiser shape: clientAddr returns a non-empty address only through param != \"\", net.ParseIP(param) != nil and !ip.IsUnspecified() on that parsed IP; the value is (&net.TCPAddr{IP: ip, Port: 1}).String() of the parsed IP; every other return is the empty ClientMapAddr. O-2 flow: ServeHTTP sanitises the client_ip query value of this request and passes exactly that to turbotunnelMode, which stores it under this carrier's ClientID by the only Set call; acceptStreams fetches the address once, before the stream loop, with the session's RemoteAddr().(ClientID), and every accepted connection carries that value, which RemoteAddr() returns; on the proxy side the client_ip value is the String() of the address computed by remoteIPFromSDP, which returns only addresses that pass isRemoteAddress. O-3 bounded ring: entries is allocated once with the capacity and never appended or re-sliced; oldest advances only as (oldest + 1) % len(entries); inserting current[k] = oldest is preceded on every path by the delete of the stale owner of that slot; len(entries) == 0 returns before indexing; every access to the ring is under its mutex, Get's read of the entry included. Each clause is necessary: e.g. reading entries[i] after releasing the lock returns another session's address. Added after the second seeding round: O-2 every path from the successful ClientID read to the packet loops passes clientIDAddrMap.Set (each carrier records its address, not only the first), and the relay URL that client_ip is written into is parsed by this invocation of datachannelHandler; O-3 Set takes a new slot on every call with a non-empty ring. Added after the third seeding round: ServeHTTP and its helpers store nothing in the handler object, which all requests of a listener share. Added after the fourth seeding round: SnowflakeClientConn.RemoteAddr returns nothing but the stored address (no fallback to the wrapped stream's address, which is the ClientID). Added after the fifth seeding round: isRemoteAddress consults util.IsLocal (the table C08 verifies), IsUnspecified and IsLoopback on its parameter.",
 		NotDecided:  "which carrier is 'most recent' under concurrent carriers (history-level), the address being forgotten when the ring overflowed between set and get (documented behaviour).",
 		Assumptions: []string{"net.ParseIP / IsUnspecified / TCPAddr.String behave as documented"},
 	}, runC18)
@@ -72,7 +72,30 @@ func runC18(c *Ctx) {
 				ip := structLitField(al, "IP")
 				port := structLitField(al, "Port")
 				k, _ := constInt(port)
-				good = ip != nil && parse != nil && ip == ssa.Value(parse) && port != nil && k == 1
+				okIP := ip != nil && parse != nil
+				if okIP {
+					// the IP is the parsed one (merged, at most, with the nil of the rejected cases)
+					sawParse := false
+					var walk func(v ssa.Value, d int)
+					walk = func(v ssa.Value, d int) {
+						if ph, isPhi := v.(*ssa.Phi); isPhi && d < 6 {
+							for _, e := range ph.Edges {
+								walk(e, d+1)
+							}
+							return
+						}
+						switch {
+						case strip(v) == ssa.Value(parse):
+							sawParse = true
+						case isNilConst(v):
+						default:
+							okIP = false
+						}
+					}
+					walk(ip, 0)
+					okIP = okIP && sawParse
+				}
+				good = okIP && port != nil && k == 1
 			}
 			c.check(good, rule1, "clientAddr renders the parsed IP with the stub port", p.instrPos(r), "(&net.TCPAddr{IP: ip, Port: 1}).String()", "the returned address is not the parsed IP rendered with port 1 (e.g. the raw parameter is passed through)")
 		}
@@ -84,7 +107,7 @@ func runC18(c *Ctx) {
 	// ---------- O-2 flow ----------
 	rule2 := "O-2 address flow"
 	sh := p.Fn("server/lib", "(*httpHandler).ServeHTTP")
-	tm := p.Fn("server/lib", "turbotunnelMode")
+	tm := p.FnLoose("server/lib", "turbotunnelMode")
 	as := p.Fn("server/lib", "(*SnowflakeListener).acceptStreams")
 	// the handler object is shared by every request of a listener: nothing request-specific (the
 	// sanitised client address least of all) is stored in it
@@ -118,7 +141,15 @@ func runC18(c *Ctx) {
 			if staticCallee(ci) != tm {
 				continue
 			}
-			addr := ci.Common().Args[1]
+			addrIdx := 1
+			if ap := paramOfType(tm, "net.Addr"); ap != nil {
+				for i, par := range tm.Params {
+					if par == ap {
+						addrIdx = i
+					}
+				}
+			}
+			addr := ci.Common().Args[addrIdx]
 			cc, _, ok := callResult(addr)
 			good := ok && staticCallee(cc) == ca
 			if good {
@@ -136,7 +167,8 @@ func runC18(c *Ctx) {
 		for _, fn := range p.FnsIn() {
 			for _, ci := range callsTo(fn, "(*server/lib.clientIDMap).Set") {
 				nSet++
-				good := fn == tm && ci.Common().Args[2] == ssa.Value(tm.Params[1])
+				addrPar := paramOfType(tm, "net.Addr")
+				good := fn == tm && addrPar != nil && ci.Common().Args[2] == ssa.Value(addrPar)
 				c.check(good, rule2, p.FnName(fn)+" stores the carrier's address", p.instrPos(ci), "the only Set call, with turbotunnelMode's addr parameter", "the ClientID-to-address map is written with something other than this carrier's sanitised address, or from another place")
 			}
 		}
@@ -246,6 +278,27 @@ func runC18(c *Ctx) {
 		c.analysedFn(p.FnName(rip))
 		bad := false
 		n := 0
+		// isRemoteAddress itself: "not local" is decided by util.IsLocal, the table C08 verifies (the standard library's
+		// IsPrivate knows neither carrier-grade NAT nor 169.254/16), plus unspecified and loopback
+		if ira := p.Fn("proxy/lib", "isRemoteAddress"); ira != nil && len(ira.Params) == 1 {
+			need := map[string]bool{"common/util.IsLocal": false, "(net.IP).IsUnspecified": false, "(net.IP).IsLoopback": false}
+			for _, ci := range callsIn(ira) {
+				n := calleeName(ci)
+				if _, ok := need[n]; ok {
+					args := callArgs(ci)
+					if len(args) > 0 && strip(args[0]) == ssa.Value(ira.Params[0]) {
+						need[n] = true
+					}
+				}
+			}
+			missing := ""
+			for k, v := range need {
+				if !v {
+					missing += " " + k
+				}
+			}
+			c.check(missing == "", rule2, "isRemoteAddress excludes local (util.IsLocal), unspecified and loopback addresses", p.Pos(ira.Pos()), "", "isRemoteAddress does not consult"+missing+": addresses in ranges that are local by the table (100.64/10, 169.254/16, ...) are reported to the bridge as the client's address")
+		}
 		// a return is vetted when it lies behind the true edge of isRemoteAddress on
 		// the returned value, or returns the result of a same-package helper whose
 		// non-nil returns are all vetted in turn
@@ -402,7 +455,7 @@ func runC18(c *Ctx) {
 // clientIDAddrMap.Set: every carrier records its address, whatever it is.
 func (c *Ctx) checkSetOnEveryCarrier(rule2 string) {
 	p := c.P
-	tm := p.Fn("server/lib", "turbotunnelMode")
+	tm := p.FnLoose("server/lib", "turbotunnelMode")
 	if tm == nil {
 		c.undecided(rule2, "server/lib.turbotunnelMode", "-", "anchor does not resolve")
 		return
